@@ -32,7 +32,7 @@ RULE = (
     "(float64, 1-D, C order) and variants: permuted points; 2-D, Fortran-ordered, strided, reversed-view, read-only and pandas-Series (shuffled index "
     "labels) containers of the same element sequence; extra ignored coordinates; integer-valued coordinates and/or data passed as int64 / int32 "
     "(and general float coordinates with integer data); queries reshaped to 0-d / 2-D / 3-D / Fortran / strided; queries with a size-1 northing; "
-    "linearity triples (d1, d2, a d1 + b d2) with a, b in +-10^[-12,12] or compensating the data magnitude, d2 in the same or another magnitude class, also with the caller re-using one data buffer. Option values are also spelled differently (numpy.bool_ / comparison result / 1, 0 / 0-d array for rescale; int, numpy integer, numpy float for mindist, damping, poisson, k, degree; keyword, positional, set_params) and compared with the plain spelling. Argument aliasing: easting / northing (and data, weights) as views of ONE common table - columns of an (n,2) table in both orders, `n, e = t.T`, rows of a (2,n) table, rows walked backwards, Fortran-ordered tables, columns / rows of a wider table holding data and weights too, columns of one DataFrame - must equal the fit on contiguous copies. Queries of different but broadcastable shapes ((1,N) with (M,1), (N,) with (M,1), scalar with array ...) must give the broadcast shape and the values of the explicitly broadcast query wherever the unchanged tree accepts them; two-component models get one data / weights component integer-valued in an integer dtype (array or Series) and the other float64 with fractions. Every group is also queried 2, 10 and 100 bounding-box diagonals outside the data (point order with another last point, layout, integer dtypes; KNeighbors with k up to n against brute force), and a few Spline cases predict n_query x n_forces > 1e7 in one call (1499..1513 forces, 7001 / 20011 queries) against slices of 500, a permuted fit and the reference model. Data magnitudes cycle through 1e-15, 1e-12, 1e-9, 1e-6, 1, 1e6, 1e12 (tolerances stay relative); coordinate extents 1e-2..1e6 and (30 %) 1e-8..1e12. Point sets are in general "
+    "linearity triples (d1, d2, a d1 + b d2) with a, b in +-10^[-12,12] or compensating the data magnitude, d2 in the same or another magnitude class, also with the caller re-using one data buffer. Option values are also spelled differently (numpy.bool_ / comparison result / 1, 0 / 0-d array for rescale; int, numpy integer, numpy float for mindist, damping, poisson, k, degree; keyword, positional, set_params) and compared with the plain spelling. Argument aliasing: easting / northing (and data, weights) as views of ONE common table - columns of an (n,2) table in both orders, `n, e = t.T`, rows of a (2,n) table, rows walked backwards, Fortran-ordered tables, columns / rows of a wider table holding data and weights too, columns of one DataFrame - must equal the fit on contiguous copies. Queries of different but broadcastable shapes ((1,N) with (M,1), (N,) with (M,1), scalar with array ...) must give the broadcast shape and the values of the explicitly broadcast query wherever the unchanged tree accepts them; two-component models get one data / weights component integer-valued in an integer dtype (array or Series) and the other float64 with fractions. SplineCV is fitted with the points as (m,n) / (n,m) / Fortran 2-D arrays, Series and DataFrame columns (m in 16, 25, 40; 2-4 candidate dampings, default KFold) and must give the scores_, selection and predictions of the raveled run; Spline / SplineCV / VectorSpline2D get integer-valued coordinates as int16 / uint16 / int8 / uint8 (float64 result required). Every group is also queried 2, 10 and 100 bounding-box diagonals outside the data (point order with another last point, layout, integer dtypes; KNeighbors with k up to n against brute force), and a few Spline cases predict n_query x n_forces > 1e7 in one call (1499..1513 forces, 7001 / 20011 queries) against slices of 500, a permuted fit and the reference model. Data magnitudes cycle through 1e-15, 1e-12, 1e-9, 1e-6, 1, 1e6, 1e12 (tolerances stay relative); coordinate extents 1e-2..1e6 and (30 %) 1e-8..1e12. Point sets are in general "
     "position, 4..150 points, scales 1e-2..1e6. A variant is non-trivial when the group has >= 4 points, non-constant data and the transformation "
     "really changed memory layout / container / order / dtype (checked on the arrays); distinct = hash of gridder configuration + inputs + variant."
 )
@@ -98,6 +98,11 @@ FLOORS = {  # ~40 % of what the unchanged tree produces at quick seed 0 (see evi
         "dtype_invariance:mixed_components:integer_component=0": 17, "dtype_invariance:mixed_components:integer_component=1": 24,
         "dtype_invariance:mixed_components:vector": 31, "dtype_invariance:mixed_components:vector_of": 10,
         "dtype_invariance:mixed_components:weights_too": 19, "groups:Chain_of_Vector": 3, "option_spelling:documented_defaults": 5,
+        "dtype_invariance:narrow:Spline": 64, "dtype_invariance:narrow:SplineCV": 9, "dtype_invariance:narrow:VectorSpline2D": 32,
+        "dtype_invariance:narrow:int16": 26, "dtype_invariance:narrow:int8": 26, "dtype_invariance:narrow:uint16": 26,
+        "dtype_invariance:narrow:uint8": 26, "groups:SplineCV": 3, "splinecv:rows=16": 1, "splinecv:rows=25": 1, "splinecv:rows=40": 1,
+        "splinecv_layout:2d(m,n)": 3, "splinecv_layout:2d(n,m)": 3, "splinecv_layout:2d_fortran": 3, "splinecv_layout:dataframe_columns": 3,
+        "splinecv_layout:series": 3, "eval:splinecv_layout": 18,
     },
     "thorough": {
         "eval:broadcast_shape": 5060, "eval:dtype_invariance": 12100, "eval:extra_coords_ignored": 2360, "eval:fitted_model_owns_its_data": 920,
@@ -154,7 +159,11 @@ FLOORS = {  # ~40 % of what the unchanged tree produces at quick seed 0 (see evi
         "dtype_invariance:mixed_components:integer_component=0": 340, "dtype_invariance:mixed_components:integer_component=1": 480,
         "dtype_invariance:mixed_components:vector": 620, "dtype_invariance:mixed_components:vector_of": 200,
         "dtype_invariance:mixed_components:weights_too": 380, "groups:Chain_of_Vector": 60, "large:n_queries=20011": 4,
-        "option_spelling:documented_defaults": 100,
+        "option_spelling:documented_defaults": 100, "dtype_invariance:narrow:Spline": 1280, "dtype_invariance:narrow:SplineCV": 90,
+        "dtype_invariance:narrow:VectorSpline2D": 640, "dtype_invariance:narrow:int16": 520, "dtype_invariance:narrow:int8": 520,
+        "dtype_invariance:narrow:uint16": 520, "dtype_invariance:narrow:uint8": 520, "groups:SplineCV": 30, "splinecv:rows=16": 10,
+        "splinecv:rows=25": 10, "splinecv:rows=40": 10, "splinecv_layout:2d(m,n)": 30, "splinecv_layout:2d(n,m)": 30,
+        "splinecv_layout:2d_fortran": 30, "splinecv_layout:dataframe_columns": 30, "splinecv_layout:series": 30, "eval:splinecv_layout": 180,
     },
 }
 JOBS = {"quick": 1, "thorough": 16}
@@ -163,8 +172,8 @@ CASE_TIMEOUT_S = 240
 
 def plan(tier):
     if tier == "quick":
-        return collections.OrderedDict(spline=60, trend=55, vector=30, neighbors=40, scipy=44, composite=30, forces=36, spelling=42, large=2)
-    return collections.OrderedDict(spline=1200, trend=1100, vector=600, neighbors=800, scipy=880, composite=600, forces=720, spelling=840, large=16)
+        return collections.OrderedDict(spline=60, trend=55, vector=30, neighbors=40, scipy=44, composite=30, forces=36, spelling=42, large=2, splinecv=9)
+    return collections.OrderedDict(spline=1200, trend=1100, vector=600, neighbors=800, scipy=880, composite=600, forces=720, spelling=840, large=16, splinecv=90)
 
 
 # ----------------------------------------------------------------------
@@ -1145,6 +1154,10 @@ def _stream_spline(run, rng, verde, index):
             imodel = _respline(verde, model, None, mindist=float(rng.choice([0.5, 2.0])))
     fid = tuple(np.round(d / (np.max(np.abs(d)) or 1.0) * 500.0) for d in data) if index % 3 == 0 else None
     run_group(run, rng, model, east, north, data, weights, qe, qn, integer_base=ib, float_int_data=fid, integer_model=imodel)
+    if index % 3 == 1:
+        damping_n = float(10 ** rng.uniform(-4, 0)) if rng.random() < 0.7 else None
+        _narrow_integer_class(run, rng, "Spline(damping=%s)" % damping_n, lambda: verde.Spline(damping=damping_n), 1,
+                              Model("spline", "Spline", None, mindist=0.0, damping=damping_n, force_coords=None))
     run.sample("spline", {"gridder": model.label, "n": n, "scale": scale, "weights": want_w,
                           "compared": "predictions of base vs permuted / re-laid-out / extra-coordinate / integer-typed / reshaped-query runs and linearity triples"})
 
@@ -1217,6 +1230,10 @@ def _stream_vector(run, rng, verde, index):
                        force_coords=None)
     fid = tuple(np.round(d / (np.max(np.abs(d)) or 1.0) * 500.0) for d in data) if index % 3 == 0 else None
     run_group(run, rng, model, east, north, data, weights, qe, qn, integer_base=ib, float_int_data=fid, integer_model=imodel)
+    if index % 3 == 1:
+        nu, md, dp = float(rng.uniform(-1, 1)), float(rng.choice([2.0, 10.0])), float(10 ** rng.uniform(-4, 0))
+        _narrow_integer_class(run, rng, "VectorSpline2D(poisson=%g, mindist=%g, damping=%g)" % (nu, md, dp), lambda: verde.VectorSpline2D(poisson=nu, mindist=md, damping=dp), 2,
+                              Model("vector", "VectorSpline2D", None, ncomp=2, poisson=nu, mindist=md, damping=dp, force_coords=None))
     run.sample("vector", {"gridder": model.label, "n": n, "weights": want_w, "compared": "both components of base vs variant runs; weights differ per component"})
 
 
@@ -1574,7 +1591,145 @@ def _stream_large(run, rng, verde, index):
     run.sample("large", {"gridder": model.label, "compared": "one predict call with n_query x n_forces > 1e7 vs slices of 500, vs a permuted fit and (sub-sample) vs the reference model"})
 
 
-_STREAMS = {"large": _stream_large, "spelling": _stream_spelling, "forces": _stream_forces, "spline": _stream_spline, "trend": _stream_trend, "vector": _stream_vector, "neighbors": _stream_neighbors, "scipy": _stream_scipy,
+NARROW_INT_TYPES = ("int16", "uint16", "int8", "uint8")
+
+
+def _narrow_integer_class(run, rng, label, make, ncomp, kappa_model, n=None):
+    """
+    Integer-valued coordinates (data and query points) given as int16 / uint16 / int8 / uint8: predictions equal the float64 run to solver
+    round-off and come back as float64. make() builds a fresh estimator; kappa_model is the Model the reference needs.
+    """
+    n = int(rng.integers(12, 50)) if n is None else n
+    side = 121  # 0..120 fits every narrow type, signed and unsigned
+    pts = rng.permutation(side * side)[:n]
+    ei, ni = (pts % side).astype("float64"), (pts // side).astype("float64")
+    data = tuple(gen.smooth_field(rng, ei, ni, 1.0) for _ in range(ncomp))
+    qe, qn = rng.integers(0, side, 10).astype("float64"), rng.integers(0, side, 10).astype("float64")
+
+    def fit_predict(coords, query):
+        est = make()
+        est.fit(coords, data if ncomp > 1 else data[0])
+        est.predict(query)
+        return tuple(np.asarray(c) for c in _as_tuple(_STATE["last_predict"].result)), est
+
+    base, est_f = fit_predict((ei, ni), (qe, qn))
+    base = tuple(np.asarray(b, dtype="float64").ravel() for b in base)
+    with np.errstate(all="ignore"):
+        refm = reference(kappa_model, ei, ni, data, None, qe, qn)
+    rel = K_COND * refm["kappa_eff"] * EPS
+    if refm["skip"] is not None or rel > UNINFORMATIVE:
+        run.count("skipped:uninformative_dtype")
+        return
+    tol = (rel + 64 * EPS) * refm["scale"]
+    conf = {"gridder": label}
+    for dt in NARROW_INT_TYPES:
+        for vname, coords, query in (("coords+query_" + dt, (ei.astype(dt), ni.astype(dt)), (qe.astype(dt), qn.astype(dt))),
+                                     ("query_" + dt, None, (qe.astype(dt), qn.astype(dt)))):
+            wit = dict(conf, variant="dtype:narrow:" + vname, integer_dtype=dt, east=ei, north=ni, data=list(data), query_east=qe, query_north=qn)
+            try:
+                if coords is None:
+                    est_f.predict(query)
+                    got = tuple(np.asarray(c) for c in _as_tuple(_STATE["last_predict"].result))
+                else:
+                    got, _ = fit_predict(coords, query)
+            except Exception as exc:  # noqa: BLE001
+                run.evaluated("dtype_invariance")
+                run.violation("dtype_invariance", "%s / %s: raised %s: %s (the float64 run on the same integer values succeeded)" % (label, vname, type(exc).__name__, str(exc)[:200]),
+                              dict(wit, exception=type(exc).__name__), key="dtype:narrow:raised")
+                continue
+            run.evaluated("dtype_invariance")
+            run.count("dtype_invariance:narrow:" + dt)
+            run.count("dtype_invariance:narrow:" + label.split("(")[0])
+            if any(g.dtype != np.dtype("float64") for g in got):
+                run.violation("dtype_invariance", "%s / %s: the prediction has dtype %s, not float64" % (label, vname, [str(g.dtype) for g in got]), wit, key="dtype:narrow:result-dtype")
+                continue
+            worst = _compare(run, "dtype_invariance", label, "integer-valued coordinates as " + vname, base, tuple(np.asarray(g, dtype="float64").ravel() for g in got), tol, wit,
+                             "dtype:narrow:" + label.split("(")[0])
+            run.observe_max("dtype_error_over_tolerance", worst)
+            run.mark_nontrivial("dtype-narrow", label, vname, ei, ni)
+
+
+def _stream_splinecv(run, rng, verde, index):
+    """SplineCV: the data points as 2-D arrays (m, n), raveled, as pandas columns - same scores_, same selected parameters, same predictions."""
+    import pandas as pd
+
+    m = int([16, 25, 40][index % 3])
+    n = int(rng.integers(3, 6))
+    size = m * n
+    scale = gen.log_uniform(rng, 1e1, 1e4)
+    east, north = gen.cloud(rng, size, kind=str(rng.choice(["uniform", "jitter"])), scale=scale, offset_factor=0.0)
+    noise = float(10 ** rng.uniform(-2, -0.3))
+    data = gen.smooth_field(rng, east, north, 1.0) + noise * rng.normal(size=size)  # the noise level decides which damping wins
+    dampings = tuple(float(v) for v in 10 ** np.sort(rng.uniform(-7, 1, int(rng.integers(2, 5)))))
+    mindists = (1e-6 * scale, 0.05 * scale)[: int(rng.integers(1, 3))]
+    want_w = rng.random() < 0.3
+    weights = rng.uniform(0.2, 2, size) if want_w else None
+    qe, qn = _queries(rng, east, north, 10)
+
+    def run_cv(coords, d, w):
+        cv = verde.SplineCV(dampings=dampings, mindists=mindists)
+        cv.fit(coords, d) if w is None else cv.fit(coords, d, weights=w)
+        cv.predict((qe, qn))
+        return np.asarray(cv.scores_, dtype="float64"), float(cv.damping_), float(cv.mindist_), _flat(tuple(np.asarray(c) for c in _as_tuple(_STATE["last_predict"].result)))
+
+    base = run_cv((east, north), data, weights)
+    run.count("groups:SplineCV")
+    run.count("splinecv:rows=%d" % m)
+    order = np.argsort(base[0])
+    gap = float(base[0][order[-1]] - base[0][order[-2]]) if base[0].size > 1 else np.inf
+    run.count("splinecv:selected_damping_index=%d_of_%d" % (dampings.index(base[1]), len(dampings)))
+    labels = rng.permutation(size) + 10
+    variants = [("2d(m,n)", (east.reshape(m, n), north.reshape(m, n)), data.reshape(m, n), None if weights is None else weights.reshape(m, n)),
+                ("2d(n,m)", (east.reshape(n, m), north.reshape(n, m)), data.reshape(n, m), None if weights is None else weights.reshape(n, m)),
+                ("2d_fortran", (np.asfortranarray(east.reshape(m, n)), np.asfortranarray(north.reshape(m, n))), np.asfortranarray(data.reshape(m, n)),
+                 None if weights is None else np.asfortranarray(weights.reshape(m, n))),
+                ("series", (pd.Series(east, index=labels), pd.Series(north, index=labels)), pd.Series(data, index=labels), None if weights is None else pd.Series(weights, index=labels)),
+                ("dataframe_columns", None, None, None)]
+    frame = pd.DataFrame({"e": east, "n": north, "d": data, "w": weights if weights is not None else np.ones(size)}, index=labels)
+    variants[-1] = ("dataframe_columns", (frame.e, frame.n), frame.d, None if weights is None else frame.w)
+    model = Model("spline", "SplineCV -> Spline(mindist=%g, damping=%g)" % (base[2], base[1]), None, mindist=base[2], damping=base[1], force_coords=None)
+    with np.errstate(all="ignore"):
+        refm = reference(model, east, north, (data,), None if weights is None else (weights,), qe, qn)
+    rel = K_COND * refm["kappa_eff"] * EPS
+    informative = refm["skip"] is None and rel <= UNINFORMATIVE
+    for vname, coords, d, w in variants:
+        wit = {"gridder": "SplineCV(dampings=%r, mindists=%r)" % (dampings, mindists), "variant": "splinecv:" + vname, "east": east, "north": north, "data": data,
+               "weights": weights, "rows": m, "columns": n, "base_scores": base[0]}
+        try:
+            got = run_cv(coords, d, w)
+        except Exception as exc:  # noqa: BLE001
+            run.evaluated("splinecv_layout")
+            run.violation("splinecv_layout", "SplineCV with the points as %s raised %s: %s (the 1-D run succeeded)" % (vname, type(exc).__name__, str(exc)[:200]),
+                          dict(wit, exception=type(exc).__name__), key="splinecv:raised")
+            continue
+        run.evaluated("splinecv_layout")
+        run.count("splinecv_layout:" + vname)
+        score_tol = 1e-9 * np.maximum(1.0, np.abs(base[0]))
+        if got[0].shape != base[0].shape or not np.all(np.abs(got[0] - base[0]) <= score_tol):
+            run.violation("splinecv_layout", "SplineCV scores_ differ when the same points are given as %s: %r vs %r" % (vname, got[0].tolist(), base[0].tolist()),
+                          dict(wit, scores=got[0]), key="splinecv:scores")
+            continue
+        run.count("splinecv:scores_bit_identical" if np.array_equal(got[0], base[0]) else "splinecv:scores_within_1e-9")
+        if (got[1], got[2]) != (base[1], base[2]):
+            if gap <= 2e-9:
+                run.count("either_way:splinecv_tied_candidates")
+                continue
+            run.violation("splinecv_layout", "SplineCV selects damping=%r mindist=%r for %s and damping=%r mindist=%r for 1-D arrays" % (got[1], got[2], vname, base[1], base[2]),
+                          dict(wit, scores=got[0]), key="splinecv:selection")
+            continue
+        _compare_refit(run, "splinecv_layout", "SplineCV", "points as " + vname, base[3], got[3], 64 * EPS * refm["terms"], rel * refm["scale"] if np.isfinite(rel) else 0.0,
+                       informative, wit, "splinecv:predictions")
+        run.mark_nontrivial("splinecv", vname, east, north, data, dampings)
+    # narrow integer coordinate dtypes through the cross-validated spline as well
+    if index % 3 == 0:
+        dp = tuple(float(v) for v in (1e-3, 1e-1))
+        _narrow_integer_class(run, rng, "SplineCV(dampings=(1e-3, 1e-1))", lambda: verde.SplineCV(dampings=dp, mindists=(1e-3,)), 1,
+                              Model("spline", "Spline", None, mindist=1e-3, damping=1e-3, force_coords=None), n=40)
+    run.sample("splinecv", {"rows": m, "columns": n, "dampings": dampings, "mindists": mindists, "scores": base[0], "selected": [base[1], base[2]],
+                            "compared": "scores_, selected damping / mindist and predictions for 2-D, Fortran, Series and DataFrame-column inputs against the raveled 1-D run"})
+
+
+_STREAMS = {"splinecv": _stream_splinecv, "large": _stream_large, "spelling": _stream_spelling, "forces": _stream_forces, "spline": _stream_spline, "trend": _stream_trend, "vector": _stream_vector, "neighbors": _stream_neighbors, "scipy": _stream_scipy,
             "composite": _stream_composite}
 
 
